@@ -28,11 +28,13 @@ func genC12(coop bool) func(t *rapid.T) c02Case {
 			c.Stack.Strategy = rapid.SampledFrom([]string{"simple", "precise", "lookup"}).Draw(t, "strategy2")
 		}
 		c.Evs = rapid.SliceOfN(genC02Ev(0), 3, 40).Draw(t, "evs")
-		if rapid.IntRange(0, 24).Draw(t, "defaultBacklog") == 0 {
-			// "use the default": zero or negative sizes mean 100; more callers than that arrive at once
+		if c.Stack.Kind != "fifo-dep" && rapid.IntRange(0, 24).Draw(t, "defaultBacklog") == 0 {
+			// "use the default": zero or negative sizes select the library's default bound (read back from its own
+			// queue_limit gauge at run time, never assumed); more callers than that arrive at once. N = callers
+			// beyond bound + limit.
 			c.Stack.Backlog = rapid.SampledFrom([]int{0, -1, -7}).Draw(t, "nonPositiveBacklog")
 			c.Stack.TimeoutMs = 50
-			c.Evs = append(c.Evs, c02Ev{K: "mass", N: 100 + c.Stack.Limit + rapid.IntRange(1, 5).Draw(t, "extra")})
+			c.Evs = append(c.Evs, c02Ev{K: "mass", N: rapid.IntRange(1, 5).Draw(t, "extra")})
 		}
 		if coop {
 			c.Yields = yieldList(rapid.SliceOfN(rapid.SampledFrom([]uint8{0, 0, 1, 1, 2, 3}), 0, 40).Draw(t, "yields"))
@@ -61,6 +63,32 @@ func runC12InBubble(c c02Case) (out kit.Outcome) {
 	x := &evExec{w: w}
 	kind := c.Stack.Kind
 	maxBacklog := c.Stack.effBacklog()
+	if c.Stack.Backlog <= 0 {
+		// the default bound is the library's business: take what it declares, insist that it is a real bound and
+		// that every non-positive size selects the same one
+		v, ok := st.reg.gauge(core.MetricQueueLimit, "")
+		if !ok {
+			return kit.Viol(kind+":limit-gauge", "queue_limit gauge was not registered with the configured registry")
+		}
+		if v < 1 || v > 100_000 {
+			return kit.Viol(kind+":default-bound", "backlog size %d asks for the default bound; the limiter declares a bound of %v callers, which is no bound", c.Stack.Backlog, v)
+		}
+		maxBacklog = int(v)
+		twinCfg := c.Stack
+		twinCfg.Backlog = 0
+		if twin, err := buildStack(twinCfg, nil, nil, t0); err == nil && c.Stack.Backlog != 0 {
+			if tv, ok := twin.reg.gauge(core.MetricQueueLimit, ""); !ok || tv != v {
+				return kit.Viol(kind+":default-bound", "backlog size %d and backlog size 0 both ask for the default bound but the limiters declare %v and %v (registered=%v)", c.Stack.Backlog, v, tv, ok)
+			}
+		}
+		evs := append([]c02Ev(nil), c.Evs...)
+		for i := range evs {
+			if evs[i].K == "mass" {
+				evs[i].N = maxBacklog + c.Stack.Limit + evs[i].N%7 + 1
+			}
+		}
+		c.Evs = evs
+	}
 	// "every caller that is granted, times out or is cancelled has left the backlog by the time its Acquire
 	// returns": looked at from inside the returning caller, under a cooperative schedule (nothing else runs
 	// between the return and the look): the backlog may list at most the OTHER callers still inside Acquire.
